@@ -246,7 +246,7 @@ Definition ut_valid (variant : nat) (li : layout) (comps w : nat) (valid : bool)
   | 0 | 3 => valid = true -> pr = ldim lo /\ pc = (2 * lcov li + 1) * comps
   | 1 => True
   | 2 => ldim li = ldim lo /\ qr = lcov lo /\ qc = lcov lo
-  | _ => valid = true /\ pr = ldim lo /\ pc = (2 * lcov li + 1) * comps /\ qr = lcov lo /\ qc = lcov lo
+  | _ => (valid = true -> pr = ldim lo /\ pc = (2 * lcov li + 1) * comps) /\ qr = lcov lo /\ qc = lcov lo
   end.
 
 Lemma case_ut_safe variant li comps w valid pr pc lo qr qc :
@@ -260,20 +260,9 @@ Proof.
   - destruct Hv as (Hd & -> & ->). apply Forall_app; split; [|apply ut_add_noise_ok].
     apply ut_core_ok; auto.
   - rewrite app_nil_r. apply ut_core_ok; assumption.
-  - destruct Hv as (-> & -> & -> & -> & ->). apply Forall_app; split.
+  - destruct Hv as (Hv & -> & ->). apply Forall_app; split.
     + apply ut_core_ok; auto.
-    + destruct v; [apply ut_add_noise_ok | constructor].
-Qed.
-
-(* the additive measurement overload after a failed evaluation: refuted *)
-Lemma ut_addmeas_failed_refuted :
-  exists li comps lo, ut_valid 4 li comps (lcov li) true (ldim lo) ((2 * lcov li + 1) * comps) lo (lcov lo) (lcov lo) /\
-    check_shapes (case_ut 4 li comps (lcov li) false (ldim lo) ((2 * lcov li + 1) * comps) lo (lcov lo) (lcov lo))
-    = Some (e_ut_addmeas, "output.covariance(i)")%string.
-Proof.
-  exists (Lay 3 0 false 0), 2, (Lay 1 0 false 0). split.
-  - unfold ut_valid. simpl. repeat split; reflexivity.
-  - vm_compute. reflexivity.
+    + destruct v; [apply Forall_when; intro; apply ut_add_noise_ok | constructor].
 Qed.
 
 (* ---------- Kalman steps ---------- *)
@@ -290,8 +279,8 @@ Qed.
 Lemma kf_lik_ok m comps : Forall item_ok (p_kf_lik m comps).
 Proof. unfold p_kf_lik. repeat step; try apply density_ok; finish. Qed.
 
-Lemma case_kfc_safe m l comps yc : quat l = false -> 0 < yc ->
-  run (case_kfc m (ldim l) l comps l comps m yc) = Safe.
+Lemma case_kfc_safe m l comps yc again : quat l = false -> 0 < yc ->
+  run (case_kfc m (ldim l) l comps l comps m yc again) = Safe.
 Proof.
   intros Hq Hy. apply run_safe_iff. unfold case_kfc, p_kf_correct, g_cov, g_mean. cbv zeta.
   destruct l as [L C q N]; simpl in Hq; subst q. lay_cbn.
@@ -319,35 +308,162 @@ Proof. unfold p_ukf_lik. repeat step; try apply density_ok; finish. Qed.
 
 Definition ukfc_valid (additive : bool) (lp : layout) (r : nat) (valid : bool) (lm : layout) : Prop :=
   quat lp = false /\ quat lm = false /\ noise lp = 0 /\ noise lm = 0 /\
-  (additive = true -> valid = true /\ r = lcov lm).
+  (additive = true -> r = lcov lm).
 
-Lemma case_ukfc_safe additive lp comps r valid lm :
+Lemma ukf_correct_ok additive lp comps r valid lm :
   ukfc_valid additive lp r valid lm ->
-  run (case_ukfc additive lp comps r valid lm (lcov lm) lp comps) = Safe.
+  Forall item_ok (p_ukf_correct additive lp comps (if additive then lcov lp else lcov lp + r) r valid lm (lcov lm) lp comps).
 Proof.
-  intros (Hqp & Hqm & Hnp & Hnm & Hadd). apply run_safe_iff. unfold case_ukfc, p_ukf_correct. cbv zeta.
-  apply Forall_app; split; [apply Forall_app; split|].
+  intros (Hqp & Hqm & Hnp & Hnm & Hadd). unfold p_ukf_correct. cbv zeta.
+  apply Forall_app; split.
   - apply Forall_relabel. unfold p_ut. destruct additive; cbv beta iota zeta.
-    + destruct (Hadd eq_refl) as [-> ->]. apply Forall_app; split; [|apply ut_add_noise_ok].
+    + rewrite (Hadd eq_refl). apply Forall_app; split; [|apply Forall_when; intro; apply ut_add_noise_ok].
       apply ut_core_ok; auto.
     + rewrite app_nil_r.
       replace (lcov lp + r) with (lcov (augment lp r)) by (unfold lcov, tsz, augment; simpl; lia).
       apply ut_core_ok; auto.
   - destruct lp as [L C q N]; destruct lm as [L' C' q' N']; simpl in *; subst.
     destruct additive; unfold g_cov, g_mean; lay_cbn; repeat step; finish2.
-  - apply Forall_when; intro. apply ukf_lik_ok.
+Qed.
+
+Lemma case_ukfc_safe additive lp comps r valid lm again :
+  ukfc_valid additive lp r valid lm ->
+  run (case_ukfc additive lp comps r valid lm (lcov lm) lp comps again) = Safe.
+Proof.
+  intro Hv. apply run_safe_iff. unfold case_ukfc. cbv zeta.
+  apply Forall_app; split; [apply ukf_correct_ok; exact Hv|].
+  apply Forall_app; split; apply Forall_when; intro; [apply ukf_lik_ok|].
+  apply ukf_correct_ok. destruct Hv as (? & ? & ? & ? & ?). repeat split; assumption.
 Qed.
 
 (* the three configurations on which the generic statement fails *)
-Lemma ukfc_failed_evaluation_refuted :
-  check_shapes (case_ukfc true (Lay 3 0 false 0) 2 2 false (Lay 2 0 false 0) 2 (Lay 3 0 false 0) 2)
-  = Some (e_ukfc, "output.covariance(i)")%string.
-Proof. vm_compute. reflexivity. Qed.
 Lemma ukfc_quaternion_measurement_refuted :
-  check_shapes (case_ukfc false (Lay 3 0 false 0) 1 2 true (Lay 0 1 true 0) 3 (Lay 3 0 false 0) 1)
+  check_shapes (case_ukfc false (Lay 3 0 false 0) 1 2 true (Lay 0 1 true 0) 3 (Lay 3 0 false 0) 1 false)
   = Some (e_ukfc, "Pxy.middleCols(meas_size*i,meas_size)")%string.
 Proof. vm_compute. reflexivity. Qed.
 Lemma ukfc_quaternion_state_refuted :
-  check_shapes (case_ukfc true (Lay 2 1 true 0) 1 2 true (Lay 2 0 false 0) 2 (Lay 2 1 true 0) 1)
+  check_shapes (case_ukfc true (Lay 2 1 true 0) 1 2 true (Lay 2 0 false 0) 2 (Lay 2 1 true 0) 1 false)
   = Some (e_ukfc, "pred.mean(i)+K*innovation")%string.
 Proof. vm_compute. reflexivity. Qed.
+
+(* ---------- SUKFCorrection on linear / Euler states ---------- *)
+Lemma uvr_ok e r c s bs rc : 0 < bs -> (rc = bs \/ rc = r) ->
+  Forall item_ok (p_uvr e r c r r s s r bs rc).
+Proof.
+  intros Hbs Hrc. unfold p_uvr. cbv zeta.
+  repeat step; finish;
+    try (match goal with H : _ < _ / bs |- _ => pose proof (div_slot _ _ _ Hbs H) end; lia).
+Qed.
+
+Lemma sukf_lik_ok lp comps msz sub : 0 < sub ->
+  Forall item_ok (p_sukf_lik lp comps msz sub msz msz).
+Proof.
+  intro Hs. unfold p_sukf_lik. cbv zeta. repeat step; try (apply uvr_ok; auto); finish;
+    try (match goal with H : _ < _ / sub |- _ => pose proof (div_slot _ _ _ Hs H) end; lia).
+Qed.
+
+Lemma case_sukf_safe lp comps msz sub again :
+  quat lp = false -> noise lp = 0 ->
+  run (case_sukf lp comps msz sub msz msz lp comps again) = Safe.
+Proof.
+  intros Hq Hn. apply run_safe_iff. unfold case_sukf, p_sukf, sukf_runs. cbv zeta.
+  apply Forall_app; split; [|apply Forall_app; split]; apply Forall_when; intro Hr; b2p; [| |apply sigma_ok].
+  - apply Forall_app; split; [apply sigma_ok|].
+    destruct lp as [L C q N]; simpl in *; subst. unfold g_cov, g_mean. lay_cbn.
+    repeat step; finish2;
+      try (match goal with Hs : 0 < ?s, H : _ < _ / ?s |- _ => pose proof (div_slot _ _ _ Hs H) end; lia).
+  - apply sukf_lik_ok; assumption.
+Qed.
+
+Lemma sukf_quaternion_state_refuted :
+  check_shapes (case_sukf (Lay 2 1 true 0) 1 2 1 2 2 (Lay 2 1 true 0) 1 false)
+  = Some (e_sukf, "propagated.middleCols(size_sigmas*i,size_sigmas)")%string.
+Proof. vm_compute. reflexivity. Qed.
+
+(* ---------- Resampling ---------- *)
+Lemma resample_ok e l n : 0 < n -> Forall item_ok (p_resample e l n l n n).
+Proof.
+  intro Hn. unfold p_resample, g_cov, g_mean. repeat step; finish2.
+Qed.
+Lemma case_resample_safe l n : 0 < n -> run (case_resample l n l n n) = Safe.
+Proof. intro. apply run_safe_iff, resample_ok; assumption. Qed.
+
+Lemma case_resprior_safe l n k : quat l = false -> noise l = 0 -> k < n ->
+  run (case_resprior l n k n) = Safe.
+Proof.
+  intros Hq Hn Hk. apply run_safe_iff. unfold case_resprior, p_resample_prior. cbv zeta.
+  destruct l as [L C q N]; simpl in *; subst.
+  repeat step; try (apply resample_ok; lia); unfold g_cov; finish2.
+Qed.
+Lemma resprior_quaternion_refuted :
+  check_shapes (case_resprior (Lay 2 1 true 0) 4 2 4) = Some (e_resp, "tmp.state(j)=")%string.
+Proof. vm_compute. reflexivity. Qed.
+
+(* ---------- density utilities ---------- *)
+Lemma case_density_safe r c : run (case_density r c r r r) = Safe.
+Proof. apply run_safe_iff, density_ok. Qed.
+Lemma case_uvr_safe r c s bs rc : 0 < bs -> (rc = bs \/ rc = r) ->
+  run (case_uvr r c r r s s r bs rc) = Safe.
+Proof. intros. apply run_safe_iff, uvr_ok; assumption. Qed.
+
+(* ---------- EstimatesExtraction: any number of calls ---------- *)
+Lemma ext_mean_ok el ec n : Forall item_ok (p_ext_mean el ec (el + ec) n n).
+Proof. unfold p_ext_mean. repeat step; finish. Qed.
+
+Definition ext_valid (stat el ec pr n wn pw ln tr tc : nat) : Prop :=
+  pr = el + ec /\ wn = n /\ 0 < n /\ (stat >= 2 -> pw = tc /\ ln = n /\ tr = n /\ 0 < tc).
+
+Lemma ext_stat_ok stat el ec pr n wn pw ln tr tc :
+  ext_valid stat el ec pr n wn pw ln tr tc ->
+  Forall item_ok (p_ext_stat stat el ec pr n wn pw ln tr tc).
+Proof.
+  intros (-> & -> & Hn & Hm). unfold p_ext_stat. destruct stat as [|[|s]].
+  - apply ext_mean_ok.
+  - unfold p_ext_mode. repeat step; finish.
+  - destruct (Hm ltac:(lia)) as (-> & -> & -> & Ht). unfold p_ext_map. repeat step; finish.
+Qed.
+
+Lemma ext_call_ok stat avg el ec pr n wn pw ln tr tc hs :
+  ext_valid stat el ec pr n wn pw ln tr tc ->
+  Forall item_ok (fst (p_ext_call stat avg el ec pr n wn pw ln tr tc hs)).
+Proof.
+  intro Hv. pose proof (ext_stat_ok _ _ _ _ _ _ _ _ _ _ Hv) as Hs. unfold p_ext_call. cbv zeta.
+  destruct avg; [exact Hs|].
+  pose proof (h_step_ok (el + ec) hs (HAdd (ext_stat_rows stat el ec pr))) as Hh.
+  destruct (h_step (el + ec) hs (HAdd (ext_stat_rows stat el ec pr))) as [pa hs'] eqn:E. simpl in Hh. simpl.
+  destruct Hv as (-> & _).
+  assert (ext_stat_rows stat el ec (el + ec) = el + ec) as -> by (destruct stat; reflexivity).
+  repeat step; try exact Hs; try exact Hh; try apply ext_mean_ok; finish.
+Qed.
+
+Lemma ext_calls_ok calls stat avg el ec pr n wn pw ln tr tc :
+  ext_valid stat el ec pr n wn pw ln tr tc ->
+  forall hs, Forall item_ok (p_ext_calls calls stat avg el ec pr n wn pw ln tr tc hs).
+Proof.
+  intro Hv. induction calls as [|c IH]; intro hs; simpl; [constructor|].
+  pose proof (ext_call_ok stat avg el ec pr n wn pw ln tr tc hs Hv) as Hc.
+  destruct (p_ext_call stat avg el ec pr n wn pw ln tr tc hs) as [p hs']. simpl in Hc.
+  apply Forall_app; split; [exact Hc | apply IH].
+Qed.
+
+Lemma case_extract_safe w calls stat avg el ec pr n wn pw ln tr tc :
+  ext_valid stat el ec pr n wn pw ln tr tc ->
+  run (case_extract w calls stat avg el ec pr n wn pw ln tr tc) = Safe.
+Proof.
+  intro Hv. apply run_safe_iff. unfold case_extract.
+  destruct (pos w).
+  - pose proof (h_set_ok "EstimatesExtraction::setMobileAverageWindowSize" h_init w) as H0.
+    destruct (h_set "EstimatesExtraction::setMobileAverageWindowSize" h_init w) as [p0 hs]. simpl in H0.
+    apply Forall_app; split; [exact H0 | apply ext_calls_ok; exact Hv].
+  - simpl. apply ext_calls_ok; exact Hv.
+Qed.
+
+(* ---------- augmentWithNoise (GaussianMixture part and the ParticleSet override) ---------- *)
+Lemma augment_ok l comps qr qc : Forall item_ok (p_augment l comps qr qc).
+Proof.
+  unfold p_augment, aug_ret. cbv zeta. destruct l as [L C q N]; destruct q; lay_cbn; repeat step; finish2.
+Qed.
+Lemma case_psaug_safe l comps qr qc qr2 qc2 : run (case_psaug l comps qr qc qr2 qc2) = Safe.
+Proof.
+  apply run_safe_iff. unfold case_psaug. cbv zeta. repeat step; try apply augment_ok; apply sigma_ok.
+Qed.
